@@ -10,7 +10,7 @@ From V Require Import Base.
 From V.spec Require Import SpecTape SpecDisk.
 From V.model Require Import MText MValues MOperands MProgram.
 From V.model Require Import MCassette MDisk MVirtualFile MCli.
-From V.proofs Require Import PVirtualFile PCli.
+From V.proofs Require Import PVirtualFile PCli PC02 PC11origin.
 Local Open Scope N_scope.
 
 (* --to_bin: the file is byte for byte the assembled image *)
@@ -64,20 +64,30 @@ Print Assumptions C11_no_name_no_container.
    (size hint 2 below 256 — the value renders in TWO hex digits and high_byte() answers 0 — no hint
    above), and for every non-negative NumericValue below 65536 whose hint is absent, 4, or 2 with a
    value below 256 (`ORG $0E00`, `ORG $10`, `ORG 3584`, ...); no ORG at all gives 0.
-   PARTIAL in this respect only: that MProgram.assemble never yields another kind of origin Value (a
-   negative or wider-hinted operand of ORG) is not proved; the harness compares the header bytes on
-   every run. *)
+   That MProgram.assemble never yields another kind of origin Value is theorem C11_header_word_is_the_origin below. *)
 Theorem C11_origin_word_of_address :
   forall a v, numv a = Ok v -> origin_word (Some v) = a /\ v_int v = a /\ a < 65536.
 Proof. exact origin_word_numv. Qed.
 Print Assumptions C11_origin_word_of_address.
 
-Theorem C11_origin_word_of_numeric_partial :
+Theorem C11_origin_word_of_numeric :
   forall n, n_neg n = false -> n_int n < 65536 ->
     (n_hint n = None \/ n_hint n = Some 4 \/ (n_hint n = Some 2 /\ n_int n < 256)) ->
     origin_word (Some (VNum n)) = v_int (VNum n).
 Proof. exact origin_word_num. Qed.
-Print Assumptions C11_origin_word_of_numeric_partial.
+Print Assumptions C11_origin_word_of_numeric.
+
+(* for EVERY accepted program - whatever the spelling of the ORG operand: decimal, $hex of any length, %binary, 'c, an
+   EQU symbol, a constant expression - the word assembler.py puts into the cassette header and the disk preamble
+   (high_byte()*256 + low_byte() of Program.origin) IS the origin address, the address at which C02 places the image
+   (PC02.origin_value; C02_image_loads_at_origin), and it is a 16-bit address.  Invariant: the operand of an ORG
+   statement is, after resolve_symbols, a non-negative NumericValue below 65536 whose size hint is absent, 4, or 2
+   with a value below 256; it becomes the statement's own address and no later pass touches it (proofs/PC11origin.v). *)
+Theorem C11_header_word_is_the_origin :
+  forall fm lines r, assemble fm lines = Ok r ->
+    origin_word (r_origin r) = origin_value r /\ origin_value r < 65536.
+Proof. exact origin_word_is_the_origin. Qed.
+Print Assumptions C11_header_word_is_the_origin.
 
 (* an assembly that ends in a diagnostic saves nothing and exits 1 *)
 Theorem C11_error_saves_nothing :
